@@ -471,13 +471,15 @@ def InBounds (st : Store) : Prop :=
 def Grows (ps qs : List Bytes) : Prop := ∀ (i : Nat) (p : Bytes), ps[i]? = some p → ∃ x, qs[i]? = some (p ++ x)
 
 theorem fetch_of_grows (st st' : Store) (r : Bytes) (hidx : st'.index.get r = st.index.get r)
-    (hg : Grows st.packs st'.packs) (hb : InBounds st) : st'.fetch r = st.fetch r := by
+    (hg : Grows st.packs st'.packs)
+    (hb : ∀ m, st.index.get r = some m → ∃ p, st.packs[m.file]? = some p ∧ m.offset + m.size ≤ p.length) :
+    st'.fetch r = st.fetch r := by
   unfold Store.fetch
   rw [hidx]
   cases hm : st.index.get r with
   | none => rfl
   | some m =>
-    obtain ⟨p, hp, hle⟩ := hb r m hm
+    obtain ⟨p, hp, hle⟩ := hb m hm
     obtain ⟨x, hx⟩ := hg _ _ hp
     simp only [hp, hx]
     rw [extent_append_left _ _ _ _ hle]
